@@ -124,7 +124,7 @@ class Case:
 def check(scratch, nat, a, t0):
     qs = Q.QueryStats()
     findings = []
-    timeout_ms = 20000 if a.tier == "quick" else 120000
+    timeout_ms = 60000 if a.tier == "quick" else 180000
     info = {}
     mf = mir.MirFile(scratch.mir_dump("bytecode", True))
     ker = K.Kernels(mf, True, scratch.repo, seed=V.seed())
